@@ -71,6 +71,10 @@ def pyIndex (n : Nat) (i : Int) : Option Nat :=
   if 0 ≤ i then (if i < (n : Int) then some i.toNat else none)
   else if 0 ≤ (n : Int) + i then some ((n : Int) + i).toNat else none
 
+/-- rows the STFT computer's `compute_full` yields for `n` samples (frame length `L`, shift `S`; any
+frame style): the length of `Model.Stft.full`, see `C09.stftRows_eq_full` -/
+def stftRows (L S n : Nat) : Nat := if n < L / 2 + 1 then 0 else (n + S / 2) / S
+
 inductive Err where
   | runtimeError | indexError | ioError | valueError
   deriving DecidableEq, Repr
